@@ -102,6 +102,17 @@ def gen_zero_answers():
     return cases
 
 
+def gen_os_errors():
+    """the wrapped sink fails with raw OS errors (what real sockets return), the same one several times in a row, two
+    alternating, with accepted metrics in between: every failure reaches the handler"""
+    cases = []
+    for cap in ("2", "u"):
+        for handler in ("0", "1", "2", "3"):
+            cases.append("Q %s %s E0,Ro111,E0,Ro111,E0,Ro111,S,E0,Rk,E0,Ro111,E0,Ro105,E0,Ro111,S,D0" % (cap, handler))
+            cases.append("Q %s %s E0,E0,Ro11,Ro11,E0,Re5,E0,Ro11,E0,Rp,E0,Ro11,E0,Ro11,S,D0" % (cap, handler))
+    return cases
+
+
 def gen_payloads():
     """every payload shape (empty string, 100 kB, non-ASCII with newlines, bare number) through every capacity, on the
     original handle and on a clone, sampled before and after delivery"""
@@ -298,6 +309,7 @@ def as_plain_drop(case):
         t[3] = re.sub(r"U(\d+)", r"D\1", t[3])
         t[3] = re.sub(r"E(\d+)[elus]", r"E\1", t[3])      # the payload's shape is nothing to the model or the clauses
         t[3] = re.sub(r"\bRz\b", "Rk", t[3])             # accepted is accepted, whatever count the wrapped sink answers
+        t[3] = re.sub(r"\bRo(\d+)\b", lambda m: "Re%d" % (2000 + int(m.group(1))), t[3])   # an OS error is an error
     return " ".join(t)
 
 
@@ -438,6 +450,7 @@ def run_queue_check(prop, tier, seed):
     cases += gen_flushes()
     cases += gen_long_runs()
     cases += gen_zero_answers()
+    cases += gen_os_errors()
     cases += gen_random(rng, 60000 if thorough else 400, 40)
     soak = gen_soak(rng, 300 if thorough else 12, thorough)
     sched = gen_schedules(8 if thorough else 6, [1, 2, None], rng, 30000 if thorough else 300, 30)
@@ -478,6 +491,18 @@ def run_queue_check(prop, tier, seed):
         for pid, msg in judge_schedule(c, o):
             if pid == prop:
                 failures.append((len(c), c, o, msg))
+    if prop == "C11":
+        # tens of thousands of panics over the life of one sink (a worker that is restarted on its own stack, or a restart
+        # budget, only shows after that many); each soak in its own process, which a stack overflow would kill
+        qp = ["QP u 32000 8", "QP 4 9000 3"] + (["QP u 120000 8", "QP 64 60000 2"] if thorough else [])
+        for c in qp:
+            try:
+                o = common.run_harness("queue", [c], shards=1, env={"VERIF_CASE_TIMEOUT": "150"})[0]
+            except common.CheckFailure as e:
+                o = "bad the process running the case died: " + str(e)[-300:].replace("\n", " ")
+            if not o.startswith("ok"):
+                failures.append((len(c), c, o, "panic soak: " + o[:300]))
+        rep.cov["panic_soaks"] = qp
     for c, o in zip(soak, simpl):
         if not o.startswith("ok"):
             for part in o[4:].split(" / "):
